@@ -12,6 +12,8 @@ CONSTANTS
   Subs = {s1}
   NVmax = 2
   QCap = 2
+  MaxDown = 0
+  Modes = {"pub"}
   MaxBatch = 2
   MaxCopies = 2
   Verdicts = {"A", "R", "I", "U"}
